@@ -186,6 +186,7 @@ class RepeatedNodeWrapper(MutableSequence[_M]):
     def __setitem__(self, index: int | slice, value: _M | Iterable[_M]) -> None:
         if isinstance(index, int):
             assert not isinstance(value, Iterable)
+            index = indexes.range_from_index(index, len(self._repeated.items)).start
             item = self._repeated.items[index]
             self._repeated.token_store.splice(value.detach(), item.first_token, item.last_token)
             value.reattach(self._repeated.token_store)
